@@ -213,6 +213,8 @@ type Hooks struct {
 	// Decide is told every time a branch narrows an atom (outs = outcomes still possible).
 	Decide func(x *Exec, s *State, atom string, outs []string)
 	Instr  func(x *Exec, s *State, in ssa.Instruction)
+	// Builtin is told that a builtin (append, len, …) is about to be evaluated.
+	Builtin func(x *Exec, s *State, in *ssa.Call, name string, args []Value)
 }
 
 type Exec struct {
@@ -239,17 +241,18 @@ type Exec struct {
 	Exhausted   bool
 	Problems    []string
 
-	domains map[string][]string
-	locID   map[string]string
-	LocOf   map[string]string
-	seen    map[string]bool
-	live    map[*ssa.Function]map[*ssa.BasicBlock]map[ssa.Value]bool
-	terms   []Terminal
-	termKey map[string]bool
-	work    []*State
-	tables  map[*ssa.Global]map[string]Value
-	arrays  map[*ssa.Global]map[int64]Value
-	globals map[string]*ssa.Global
+	domains  map[string][]string
+	locID    map[string]string
+	LocOf    map[string]string
+	seen     map[string]bool
+	live     map[*ssa.Function]map[*ssa.BasicBlock]map[ssa.Value]bool
+	terms    []Terminal
+	termKey  map[string]bool
+	work     []*State
+	tables   map[*ssa.Global]map[string]Value
+	arrays   map[*ssa.Global]map[int64]Value
+	globals  map[string]*ssa.Global
+	arrayLen map[string]int64 // arrays a whole-array slice was taken of (slice literals): location -> length
 }
 
 func New(prog *ssa.Program, inScope func(*ssa.Function) bool) *Exec {
@@ -448,6 +451,13 @@ func (x *Exec) ConstArray(loc string) map[int64]Value {
 	}
 	x.arrays[g] = tab
 	return tab
+}
+
+// ArrayLen: the length of the array at loc, when a whole-array slice (a slice
+// literal) was taken of it during this exploration.
+func (x *Exec) ArrayLen(loc string) (int64, bool) {
+	n, ok := x.arrayLen[loc]
+	return n, ok
 }
 
 func zeroConst(t types.Type) Value {
@@ -809,6 +819,33 @@ func (x *Exec) load(s *State, p Value, t types.Type) Value {
 func (x *Exec) loadLoc(s *State, loc string, freshCell bool, t types.Type) Value {
 	if v, ok := s.Heap[loc]; ok {
 		return v
+	}
+	// a field of a field … of a location stored as a whole: a.b.c where only a (a symbolic structure) is in the heap
+	if i := strings.LastIndex(loc, "·"); i > 0 {
+		if _, direct := s.Heap[loc[:i]]; !direct {
+			rest := loc[:i]
+			var path []string
+			path = append(path, loc[i+len("·"):])
+			for {
+				j := strings.LastIndex(rest, "·")
+				if j <= 0 || strings.ContainsAny(rest[j:], "[]()") {
+					break
+				}
+				path = append([]string{rest[j+len("·"):]}, path...)
+				rest = rest[:j]
+				if whole, ok := s.Heap[rest]; ok {
+					switch whole.(type) {
+					case Sym, *Term:
+						v := whole
+						for _, f := range path {
+							v = NewTerm("field", v, Const{V: constant.MakeString(f)})
+						}
+						return v
+					}
+					break
+				}
+			}
+		}
 	}
 	// a field of a location stored as a whole
 	if i := strings.LastIndex(loc, "·"); i > 0 {
@@ -1282,7 +1319,9 @@ func (x *Exec) enterBlock(s *State, pred, b *ssa.BasicBlock, first bool) {
 			}
 			if snap := f.Loops[b.Index]; snap != nil {
 				snap.iters++
-				if snap.iters > x.Unroll {
+				// a loop whose exit test compares literals this time round (a range over a slice literal,
+				// for i := 0; i < 3; i++) is followed exactly, iteration by iteration, up to a small bound
+				if snap.iters > x.Unroll && !(snap.iters <= 12 && x.concreteHeader(s, f, b)) {
 					if x.Widen {
 						x.widen(s, f, b, snap, phis)
 					}
@@ -1568,6 +1607,103 @@ func (x *Exec) headKey(s *State) string {
 	return sb.String()
 }
 
+// concreteHeader: the loop header b ends in a test whose two operands evaluate
+// to integer literals in the current state.
+func (x *Exec) concreteHeader(s *State, f *Frame, b *ssa.BasicBlock) bool {
+	if len(b.Instrs) == 0 {
+		return false
+	}
+	iff, ok := b.Instrs[len(b.Instrs)-1].(*ssa.If)
+	if !ok {
+		return false
+	}
+	cmp, ok := iff.Cond.(*ssa.BinOp)
+	if !ok {
+		return false
+	}
+	switch cmp.Op {
+	case token.LSS, token.LEQ, token.GTR, token.GEQ, token.NEQ, token.EQL:
+	default:
+		return false
+	}
+	_, ok1 := x.concreteInt(s, f, cmp.X, 0)
+	_, ok2 := x.concreteInt(s, f, cmp.Y, 0)
+	return ok1 && ok2
+}
+
+func (x *Exec) concreteInt(s *State, f *Frame, v ssa.Value, depth int) (int64, bool) {
+	if depth > 4 {
+		return 0, false
+	}
+	if c, ok := v.(*ssa.Const); ok {
+		if c.Value != nil && c.Value.Kind() == constant.Int {
+			return c.Int64(), true
+		}
+		return 0, false
+	}
+	if ev, ok := f.Env[v]; ok {
+		if c, ok := ev.(Const); ok && c.V != nil && c.V.Kind() == constant.Int {
+			n, exact := constant.Int64Val(c.V)
+			return n, exact
+		}
+	}
+	switch t := v.(type) {
+	case *ssa.BinOp:
+		a, ok1 := x.concreteInt(s, f, t.X, depth+1)
+		b, ok2 := x.concreteInt(s, f, t.Y, depth+1)
+		if !ok1 || !ok2 {
+			return 0, false
+		}
+		switch t.Op {
+		case token.ADD:
+			return a + b, true
+		case token.SUB:
+			return a - b, true
+		}
+	case *ssa.Call:
+		if bi, ok := t.Call.Value.(*ssa.Builtin); ok && bi.Name() == "len" && len(t.Call.Args) == 1 {
+			// len of a slice taken of a whole array: s := arr[:]
+			if sl, ok := t.Call.Args[0].(*ssa.Slice); ok && sl.Low == nil && sl.High == nil {
+				if pt, ok := sl.X.Type().Underlying().(*types.Pointer); ok {
+					if at, ok := pt.Elem().Underlying().(*types.Array); ok {
+						return at.Len(), true
+					}
+				}
+			}
+		}
+	}
+	return 0, false
+}
+
+// nonNeg: v is an integer known to be >= 0 in s (a literal, a generalised
+// counter that carries that fact, or such a value plus a non-negative literal).
+func (x *Exec) nonNeg(s *State, v Value) bool {
+	switch t := v.(type) {
+	case Const:
+		return t.V != nil && t.V.Kind() == constant.Int && constant.Sign(t.V) >= 0
+	case Sym:
+		if !strings.HasPrefix(t.Name, "j:") {
+			return false
+		}
+		outs := x.OrdOutcomes(s, "c:0", t.Key())
+		if outs == nil {
+			return false
+		}
+		for _, o := range outs {
+			if o == ">" {
+				return false
+			}
+		}
+		return true
+	case *Term:
+		if t.Op != "+" || len(t.Args) != 2 {
+			return false
+		}
+		return x.nonNeg(s, t.Args[0]) && x.nonNeg(s, t.Args[1])
+	}
+	return false
+}
+
 func volatileAtom(k string) bool {
 	return strings.Contains(k, "#") || strings.Contains(k, "§w@") || strings.Contains(k, "§wphi:") || strings.Contains(k, "§j")
 }
@@ -1600,6 +1736,7 @@ func joinVal(a, b Value, name string) (Value, bool) {
 func (x *Exec) join(prev, cur *State) (*State, bool) {
 	out := prev.clone()
 	changed := false
+	var nonNegSyms []string
 	for fi, pf := range out.Frames {
 		cf := cur.Frames[fi]
 		for v, pv := range pf.Env {
@@ -1611,6 +1748,11 @@ func (x *Exec) join(prev, cur *State) (*State, bool) {
 			if ch {
 				pf.Env[v] = nv
 				changed = true
+				// a counter that is non-negative on both arrivals stays non-negative (loop indices start at a
+				// literal and grow): keep that one fact about the generalised value
+				if js, isSym := nv.(Sym); isSym && x.nonNeg(prev, pv) && x.nonNeg(cur, cv) {
+					nonNegSyms = append(nonNegSyms, js.Key())
+				}
 			}
 		}
 		for v, cv := range cf.Env {
@@ -1664,6 +1806,14 @@ func (x *Exec) join(prev, cur *State) (*State, bool) {
 		if cm, ok := cur.PC[k]; !ok || cm != m {
 			delete(out.PC, k)
 			changed = true
+		}
+	}
+	for _, kb := range nonNegSyms {
+		ka := "c:0"
+		if ka < kb {
+			x.Restrict(out, Atom{Name: "ord(" + ka + "," + kb + ")", Domain: []string{"<", "=", ">"}}, "<", "=")
+		} else {
+			x.Restrict(out, Atom{Name: "ord(" + kb + "," + ka + ")", Domain: []string{"<", "=", ">"}}, ">", "=")
 		}
 	}
 	out.Trace = append([]string(nil), cur.Trace...)
@@ -2137,6 +2287,17 @@ func (x *Exec) step(s *State, f *Frame, in ssa.Instruction) bool {
 		case Ptr:
 			f.Env[in] = Ptr{Loc: b.Loc + "[" + idx.Key() + "]", Fresh: b.Fresh}
 		case Sym, *Term:
+			if t, ok := b.(*Term); ok && t.Op == "slice" && len(t.Args) == 3 {
+				// an element of arr[:] (a slice literal) is the element of the array itself
+				if p, ok := t.Args[0].(Ptr); ok && (t.Args[1].Key() == "zero" || t.Args[1].Key() == "c:0") {
+					if ic, isC := idx.(Const); isC && ic.V != nil && ic.V.Kind() == constant.Int {
+						if k, exact := constant.Int64Val(ic.V); exact && k >= 0 && k < x.arrayLen[p.Loc] {
+							f.Env[in] = Ptr{Loc: p.Loc + "[" + idx.Key() + "]", Fresh: p.Fresh}
+							break
+						}
+					}
+				}
+			}
 			f.Env[in] = Ptr{Loc: "L:" + b.Key() + "[" + idx.Key() + "]"}
 		default:
 			f.Env[in] = Top{}
@@ -2216,7 +2377,18 @@ func (x *Exec) step(s *State, f *Frame, in ssa.Instruction) bool {
 	case *ssa.MakeChan:
 		f.Env[in] = NewTerm("makechan", x.val(s, f, in.Size))
 	case *ssa.Slice:
-		f.Env[in] = NewTerm("slice", x.val(s, f, in.X), x.optVal(s, f, in.Low), x.optVal(s, f, in.High))
+		base := x.val(s, f, in.X)
+		if p, ok := base.(Ptr); ok && in.Low == nil && in.High == nil {
+			if pt, ok := in.X.Type().Underlying().(*types.Pointer); ok {
+				if at, ok := pt.Elem().Underlying().(*types.Array); ok {
+					if x.arrayLen == nil {
+						x.arrayLen = map[string]int64{}
+					}
+					x.arrayLen[p.Loc] = at.Len() // arr[:] of a literal: its cells are arr's cells
+				}
+			}
+		}
+		f.Env[in] = NewTerm("slice", base, x.optVal(s, f, in.Low), x.optVal(s, f, in.High))
 	case *ssa.TypeAssert:
 		xv := x.val(s, f, in.X)
 		var inner Value = NewTerm("assert:"+in.AssertedType.String(), xv)
@@ -2430,6 +2602,9 @@ func (x *Exec) call(s *State, f *Frame, in *ssa.Call) bool {
 		args = append(args, x.val(s, f, a))
 	}
 	if b, ok := c.Value.(*ssa.Builtin); ok {
+		if x.Hooks.Builtin != nil {
+			x.Hooks.Builtin(x, s, in, b.Name(), args)
+		}
 		f.Env[in] = x.builtin(s, f, in, b.Name(), args)
 		f.PC++
 		return true
@@ -2462,6 +2637,16 @@ func (x *Exec) call(s *State, f *Frame, in *ssa.Call) bool {
 func (x *Exec) builtin(s *State, f *Frame, in *ssa.Call, name string, args []Value) Value {
 	switch name {
 	case "len":
+		if in != nil && len(in.Call.Args) == 1 {
+			// the length of a slice of a whole array (a slice literal) is the array's length
+			if sl, ok := in.Call.Args[0].(*ssa.Slice); ok && sl.Low == nil && sl.High == nil {
+				if pt, ok := sl.X.Type().Underlying().(*types.Pointer); ok {
+					if at, ok := pt.Elem().Underlying().(*types.Array); ok {
+						return Const{V: constant.MakeInt64(at.Len())}
+					}
+				}
+			}
+		}
 		if c, ok := args[0].(Const); ok {
 			if c.Nil {
 				return Const{V: constant.MakeInt64(0)}
